@@ -648,7 +648,17 @@ impl HooksMap {
 pub open spec fn hooks_of(h: Heap, t: Tid) -> Map<TaskLifeCycle, Seq<StatementBatch>> {
     if h.hooks.dom().contains(t) { h.hooks[t] } else { Map::empty() }
 }
+pub uninterp spec fn flag_as<T>(b: bool) -> T;      // a boolean data entry read at type T
+// TRUSTED: serde reads a JSON bool as the bool (Vars::get::<bool>)
+#[verifier::external_body]
+pub broadcast proof fn axiom_flag_as_bool(b: bool) ensures #[trigger] flag_as::<bool>(b) == b {}
 impl Task {
+    // task.rs: find = the task's own data first, then the ancestors nearest-first (V3); only the own-data case is specified here
+    #[verifier::external_body]
+    pub fn find<T>(&self, name: &str, Tracked(h): Tracked<&Heap>) -> (r: Option<T>)
+        requires h.has(self.id@)
+        ensures h.tasks[self.id@].flags.dom().contains(name@) ==> r == Some(flag_as::<T>(h.tasks[self.id@].flags[name@])),
+    { unimplemented!() }
     // R11: `self.hooks.read().unwrap()`
     #[verifier::external_body]
     pub fn hooks_snapshot(&self, Tracked(h): Tracked<&Heap>) -> (r: HooksMap) ensures r@ == hooks_of(*h, self.id@) { unimplemented!() }
